@@ -136,6 +136,17 @@ def run(prop, tier, seed):
             cfg = dict(policy=policy, cull=rng.choice([2, 10]), limit=shards * 320 * 1024, stats=False, shards=shards, min_file_size=2 ** 15)
             tid += 1
             jobs.append((cfg, ops, seed + 8500 + tid, tid))
+    # the limit each shard works with, however the cache came to be: created, created over shard directories that were there
+    # already, reopened / unpickled / copied with and without the limit spelled out
+    for shards in (2, 3, 8):
+        for premade in (0, 1):
+            for limit in (2 ** 30, shards * 2 ** 20):
+                ops = [{'op': 'limits', 'a': {}, 'form': 0}, {'op': 'set', 'a': {'k': [1, 97], 'v': 5, 'ttl': [], 'tag': 0}, 'form': 0}]
+                for life in ('reopen', 'pickle', 'copy'):
+                    ops += [{'op': life, 'a': {}, 'form': 0}, {'op': 'limits', 'a': {}, 'form': 0}]
+                cfg = dict(policy='lrs', cull=10, limit=limit, stats=False, shards=shards, min_file_size=2 ** 15, premade=premade)
+                tid += 1
+                jobs.append((cfg, ops, seed + 8700 + tid, tid))
     # more than one page (100 rows) per shard, the lock taken by another client BETWEEN the pages, repeatedly
     for j in range(2 if tier == 'quick' else 12):
         shards = rng.choice([2, 3])
